@@ -88,6 +88,8 @@ def run_concrete(h, inputs):
     except Exception as e:  # the real code raised on valid input
         tb = traceback.extract_tb(e.__traceback__)
         where = [(os.path.relpath(f.filename, "/"), f.lineno, f.name) for f in tb][-4:]
+        if _in_harness(tb):
+            return {"status": "harness_error", "detail": "%s: %s" % (type(e).__name__, str(e)[:200]), "where": where}
         return {"status": "exception", "exc_type": type(e).__name__, "detail": str(e)[:300], "where": where, "nclaims": env.nclaims}
     if env.failed:
         return {"status": "failed", "failed": _jsonable(env.failed[:5]), "nclaims": env.nclaims}
@@ -163,6 +165,9 @@ def explore(h, max_paths=2000, time_budget=600.0, witness_per_harness=3, obl_tim
         except Exception as e:
             status = "exception"
             err = (type(e).__name__, str(e)[:300], _where(e))
+            if _in_harness(traceback.extract_tb(e.__traceback__)):
+                status = "engine_error"
+                err = "harness code raised %s: %s @ %s" % (type(e).__name__, str(e)[:200], _where_any(e))
         finally:
             S.set_ctx(None)
         stubs |= env.used_stubs
@@ -195,10 +200,14 @@ def explore(h, max_paths=2000, time_budget=600.0, witness_per_harness=3, obl_tim
             continue
         if status == "exception":
             # candidate crash: the real code raised on a feasible path -> get inputs and replay
-            ctx.solver.set("timeout", 20000)
-            r = ctx.solver.check()
+            r, mdl = ctx.solve([], 20000, full=True)
+            if r == z3.unsat:
+                # the path was only taken because a feasibility query was inconclusive
+                res["paths"] -= 1
+                res["infeasible"] += 1
+                continue
             if r == z3.sat:
-                inputs = model_inputs(env, ctx.solver.model())
+                inputs = model_inputs(env, mdl)
                 out = run_concrete(h, inputs)
                 entry = {"kind": "crash", "label": "exception:%s" % err[0], "exc": err, "inputs": inputs, "replay": out, "trace": _tr(ctx.trace)}
                 if out["status"] == "exception" and out["exc_type"] == err[0]:
@@ -215,11 +224,13 @@ def explore(h, max_paths=2000, time_budget=600.0, witness_per_harness=3, obl_tim
             res["cex"].append(entry["label"])
             if out["status"] in ("failed", "exception"):
                 res["violations"].append(entry)
+            elif out["status"] == "harness_error":
+                res["engine_errors"].append({"error": "harness error in concrete replay: %s" % out, "trace": _tr(c["trace"])})
             else:
                 res["spurious"].append(entry)
         # witness validation (also the vacuity witness): a model of the path condition is
         # pushed through the real code in floats and every claim must hold there too
-        if rec.obligations and res["witness_validated"] + res["witness_skipped"] < witness_per_harness and not rec.cex:
+        if rec.obligations and (res["witness_validated"] + res["witness_skipped"] < witness_per_harness or rec.inconclusive) and not rec.cex:
             w = _witness(env, ctx)
             if w is None:
                 res["witness_skipped"] += 1
@@ -231,6 +242,8 @@ def explore(h, max_paths=2000, time_budget=600.0, witness_per_harness=3, obl_tim
                         res["samples"].append({"path_decisions": _tr(ctx.trace), "path_condition": [str(c)[:160] for c in ctx.conds[-4:]], "witness_inputs": _round(w), "claims_checked": out["nclaims"], "obligation_labels": sorted(set(rec.labels))[:8]})
                 elif out["status"] == "precondition":
                     res["witness_skipped"] += 1
+                elif out["status"] == "harness_error":
+                    res["engine_errors"].append({"error": "harness error in witness replay: %s" % out, "trace": _tr(ctx.trace)})
                 else:
                     res["violations"].append({"kind": "witness", "label": "witness:" + (out.get("failed", [{}])[0].get("label") if out.get("failed") else "exception:" + str(out.get("exc_type"))), "inputs": w, "replay": out, "trace": _tr(ctx.trace)})
     res["stubs"] = sorted(stubs)
@@ -240,9 +253,18 @@ def explore(h, max_paths=2000, time_budget=600.0, witness_per_harness=3, obl_tim
     return res
 
 
+def _in_harness(tb):
+    """True if the innermost frame of the traceback is harness code (not the library, numpy, ...)."""
+    tb = list(tb)
+    return bool(tb) and "/verif/vt/" in tb[-1].filename and "/verif/vt/symreal/" not in tb[-1].filename
+
+
+def _where_any(e):
+    f = list(traceback.extract_tb(e.__traceback__))[-1]
+    return "%s:%d:%s" % (f.filename, f.lineno, f.name)
+
+
 def _witness(env, ctx):
-    s = ctx.solver
-    s.set("timeout", 10000)
     nice = []
     for name, v in env.vars.items():
         if z3.is_int(v):
@@ -252,11 +274,7 @@ def _witness(env, ctx):
             nice.append(v <= 16)
         nice.append(z3.ToReal(z3.ToInt(v * 16)) == v * 16)
     for extra in (nice, []):
-        s.push()
-        s.add(*extra)
-        r = s.check()
-        m = s.model() if r == z3.sat else None
-        s.pop()
+        r, m = ctx.solve(extra, 10000, full=True)
         if m is not None:
             return model_inputs(env, m)
     return None
